@@ -51,6 +51,7 @@ func cmdCheck(args []string) {
 			c := &Check{P: p, Prop: id, Tier: *tier, start: time.Now(), info: map[string]interface{}{}, assum: map[string]bool{}}
 			p.undecided = nil
 			rules[id](c)
+			commonPreconditions(c)
 			if r := c.finish(explanations[id]); r > rc {
 				rc = r
 			}
@@ -66,6 +67,7 @@ func cmdCheck(args []string) {
 	p := loadProg(repoDir(), false, "")
 	c := &Check{P: p, Prop: *prop, Tier: *tier, start: start, info: map[string]interface{}{}, assum: map[string]bool{}}
 	rule(c)
+	commonPreconditions(c)
 	if debugHook != nil {
 		debugHook(c)
 	}
